@@ -141,6 +141,9 @@ type Sample struct {
 type Trace struct {
 	Start      time.Time      `json:"start"`
 	StepAt     []time.Time    `json:"step_at"`
+	// RestartSilSnap: per restart step in order, the instant of the silence snapshot the new process started
+	// from (the stop instant for a clean restart, the last maintenance run for a stale one, zero for none)
+	RestartSilSnap []time.Time `json:"restart_sil_snap,omitempty"`
 	End        time.Time      `json:"end"`
 	Attempts   []Attempt      `json:"attempts"`
 	Samples    []Sample       `json:"samples"`
